@@ -2,7 +2,6 @@ package props
 
 import (
 	"fmt"
-	"reflect"
 
 	"pgregory.net/rapid"
 
@@ -20,6 +19,13 @@ func drawC14(rt *rapid.T) *Case {
 	r := gen.Render(p, gen.Canon)
 	d := g.Doc(p)
 	c := &Case{Path: r.Text, AST: p, Texts: r.Steps, Doc: d, DocKind: g.DocKind, UseNumber: rapid.Bool().Draw(rt, "usenumber"), Funcs: true}
+	if gen.Uniform(rt, "opaque", 14) == 0 {
+		// values that are not decoded JSON reach the functions as they are (a nil []interface{} is
+		// an array without elements)
+		c.Doc = g.Opaquify(d)
+		c.DocKind = "opaque"
+		return c
+	}
 	if gen.Uniform(rt, "shared", 8) == 0 {
 		// one container reachable by two paths (a document built in Go, not decoded): its values are
 		// selected once per path that leads to them, and the functions see every one of them
@@ -198,7 +204,7 @@ func checkC14(c *Case, st *Stats) string {
 		if lib.err != nil {
 			return fmt.Sprintf("SPEC selects %s but the library failed: %v", JSONString(res.Values()), lib.err)
 		}
-		if !reflect.DeepEqual(lib.got, res.Values()) {
+		if !deepSameList(lib.got, res.Values()) {
 			return fmt.Sprintf("result differs from the chained return values:\n   got  %s\n   want %s", JSONString(lib.got), JSONString(res.Values()))
 		}
 		st.Class("outcome:values")
